@@ -5,6 +5,7 @@ from ..report import where
 from ..facts import in_module
 from .c02 import residual_rule
 from .c10 import pats, vname
+from .. import storerules as sr
 
 LEVEL = "other"
 OPS = "samyama::query::executor::operator::"
@@ -21,6 +22,8 @@ def run(ctx, F, cg):
     ctx.rule("R01a", "the multi-label branch of NodeScanOperator::initialize tests membership (has_label / contains / retain / intersection): a branch that only inserts computes the union, but (n:A:B) matches nodes carrying all labels")
     ctx.rule("R01b", "(shared with C02) an index lookup keeps its predicate in the residual filter")
     ctx.rule("R01c", "the operator-local copies of the expression evaluator agree with eval_expression, variant by variant, on the semantic helper each arm calls; no arm is empty")
+    ctx.rule("R01e", "sum() keeps its total across the integer -> float switch: the aggregate state selects the float accumulator alone once its integer flag is false, so every writer that may clear the flag (row update, partial-group merge) folds the integer accumulator into the float one on that path")
+    sr.flag_selected_accumulators(ctx, F, cg, "R01e")
     ctx.rule("R01d", "every IndexScanOperator built by the planner is given the pattern's labels (with_labels)")
     # ---- R01a ------------------------------------------------------------------------------------------
     ini = [r for p, r in F.fns.items() if p == OPS + "NodeScanOperator::initialize"]
